@@ -32,23 +32,33 @@ def run(ctx):
             labels[l] = labels.get(l, 0) + 1
     need = ["end-only-range-assumed-to-start-2020-01-01", "start-only-range-assumed-to-end-now-plus-1-day",
             "column-ending-in-time-taken-as-time", "time-predicate-under-NOT", "time-predicate-under-OR",
-            "time-range-applied-to-every-table-reference", "inclusive-upper-bound-on-the-hour-excludes-that-hour",
+            "time-range-applied-to-every-table-reference",
             "utc-offset-literal-converted-by-pruner-but-not-by-duckdb"]
     for l in need:
         if not labels.get(l):
             raise InfraError("vacuous model: mechanism %s never predicted" % l)
+    incl = "inclusive-upper-bound-on-the-hour-excludes-that-hour"
+    if not any(l["why"] == incl for q in qs for c in q["cases"] for l in c["lostaw"]):
+        raise InfraError("vacuous generation: no case on which the pre-757b147 pruner would lose the end hour")
+    # negative control: the hour loop as written before /repo 757b147 must be rejected by TLC
+    neg = ctx.tlc("sqlrewrite", "SqlRewritePrune", "Prune_AsWritten.cfg", timeout=1800, workers=4, allow_violation=True)
+    if not neg.violated:
+        raise InfraError("negative control Prune_AsWritten.cfg was not rejected by TLC")
     nloss = sum(1 for q in qs if q["nbad"])
     if nloss == len(qs) or not any(q["found"] and not q["nbad"] for q in qs):
         raise InfraError("vacuous model: no query is pruned without loss")
     ctx.note("tlc_prune", {"cfg": cfg, "distinct": gen.distinct, "generated": gen.generated, "depth": gen.depth,
-                           "invariants": ["Explained", "SmallScope"], "queries": len(qs), "queries_with_predicted_loss": nloss,
+                           "invariants": ["Explained", "SmallScope", "NoInclusiveLoss"], "negative_control_rejected": "Prune_AsWritten.cfg", "queries": len(qs), "queries_with_predicted_loss": nloss,
                            "queries_pruned_without_loss": sum(1 for q in qs if q["found"] and not q["nbad"]),
                            "queries_per_mechanism": labels})
     # stratified, seeded sample: round-robin over (wrapper, label set, pruned?) groups
     rnd = random.Random(ctx.seed)
     groups = {}
     for q in qs:
-        groups.setdefault((q["w"], tuple(sorted(q["labels"])), q["found"]), []).append(q)
+        # mechanisms the pre-fix pruner would add (repaired findings) form their own groups, so that a
+        # regression of a repaired mechanism is always executed
+        aw = sorted({l["why"] for c in q["cases"] for l in c["lostaw"]} - set(q["labels"]))
+        groups.setdefault((q["w"], tuple(sorted(q["labels"])), q["found"], tuple(aw)), []).append(q)
     for g in groups.values():
         rnd.shuffle(g)
     budget = 360 if quick else 3000
